@@ -192,3 +192,18 @@ func (l *lockedRand) Intn(n int) int {
 	defer l.mu.Unlock()
 	return l.r.Intn(n)
 }
+
+// dialUnique connects from a source port that this process uses only once (taken from the reserved range below the
+// ephemeral range): drivers that tell connections apart by their source address must never see one twice in a history.
+func dialUnique(addr string, timeout time.Duration) (net.Conn, error) {
+	var last error
+	for try := 0; try < 5; try++ {
+		d := net.Dialer{Timeout: timeout, LocalAddr: &net.TCPAddr{IP: net.IPv4(127, 0, 0, 1), Port: tnPort()}}
+		c, err := d.Dial("tcp", addr)
+		if err == nil {
+			return c, nil
+		}
+		last = err
+	}
+	return nil, last
+}
